@@ -18,7 +18,7 @@
 #include <stdlib.h>
 
 enum { F_LEVEL_NONE, F_LEVEL_BYTES, F_LEVEL_STACKS, F_REALLOC_MOVED, F_REALLOC_SAME_PTR, F_REALLOC_TO_ZERO, F_REALLOC_FROM_NULL, F_CALLOC, F_DUMP_WITH_LIVE,
-       F_CROSS_THREAD_RELEASE, F_READING_DURING_ACTIVITY, F_WRAPPED_HAS_REALLOC, F_WRAPPED_NO_REALLOC, F_ADDRESS_REUSE };
+       F_CROSS_THREAD_RELEASE, F_READING_DURING_ACTIVITY, F_WRAPPED_HAS_REALLOC, F_WRAPPED_NO_REALLOC, F_ADDRESS_REUSE, F_FOREIGN_RELEASE, F_FOREIGN_REALLOC };
 
 static inline uint8_t pat(uint64_t id, size_t off) {
     return (uint8_t)(id * 131 + off * 11 + (id >> 9) + 5);
@@ -98,6 +98,21 @@ static void seq_case(void) {
     struct aws_allocator *wrapped = full ? mon_guard_allocator_full() : mon_guard_allocator();
     struct mon_alloc_stats st0;
     mon_guard_stats(&st0);
+    /* blocks the tracer has never seen: obtained from the wrapped allocator directly, some before the tracer exists
+     * ("can be installed at any time"). Released through the tracer they change nothing; resized through the tracer the
+     * result is an allocation made through the tracer and is counted from then on. */
+    struct blk foreign[8];
+    size_t nforeign = 0;
+    uint64_t foreign_id = 0xF0E1600000000000ULL | (mon_rand(r) & 0xffffff);
+    if (mon_chance(r, 1, 2)) {
+        size_t nf = 1 + (size_t)mon_below(r, 4);
+        for (size_t i = 0; i < nf; ++i) {
+            struct blk b = {.id = foreign_id++, .size = pick_size(r)};
+            b.p = aws_mem_acquire(wrapped, b.size);
+            fill(&b);
+            foreign[nforeign++] = b;
+        }
+    }
     struct aws_allocator *tr = aws_mem_tracer_new(wrapped, NULL, (enum aws_mem_trace_level)level, frames);
     mon_flag(level == AWS_MEMTRACE_NONE ? F_LEVEL_NONE : level == AWS_MEMTRACE_BYTES ? F_LEVEL_BYTES : F_LEVEL_STACKS);
     mon_flag(full ? F_WRAPPED_HAS_REALLOC : F_WRAPPED_NO_REALLOC);
@@ -205,6 +220,48 @@ static void seq_case(void) {
                     want_bytes += newsize;
                 }
             }
+        } else if (pick >= 96) {
+            mon_fp(5);
+            if (nforeign < 8 && (nforeign == 0 || mon_chance(r, 1, 3))) {
+                opname = "acquire directly from the wrapped allocator";
+                struct blk b = {.id = foreign_id++, .size = pick_size(r)};
+                b.p = aws_mem_acquire(wrapped, b.size);
+                fill(&b);
+                foreign[nforeign++] = b;
+            } else {
+                size_t i = (size_t)mon_below(r, nforeign);
+                struct blk b = foreign[i];
+                foreign[i] = foreign[--nforeign];
+                verify(&b, b.size, "foreign block before it is handed to the tracer");
+                unsigned how = (unsigned)mon_below(r, 4);
+                if (how == 0) {
+                    opname = "release through the tracer of a block it never tracked";
+                    aws_mem_release(tr, b.p);
+                    mon_flag(F_FOREIGN_RELEASE);
+                } else if (how == 1 || nlive >= cap) {
+                    opname = "realloc to zero through the tracer of a block it never tracked";
+                    void *p = b.p;
+                    if (aws_mem_realloc(tr, &p, b.size, 0) || p) {
+                        mon_violation("C17:realloc-to-zero", "realloc to 0 of an untracked block failed or left a pointer");
+                    }
+                } else {
+                    opname = "realloc through the tracer of a block it never tracked";
+                    size_t newsize = how == 2 ? 1 + (size_t)mon_below(r, b.size) : pick_size(r);
+                    void *p = b.p;
+                    if (aws_mem_realloc(tr, &p, b.size, newsize) || !p) {
+                        mon_violation("C17:realloc-failed", "realloc(%zu -> %zu) of an untracked block failed", b.size, newsize);
+                        break;
+                    }
+                    struct blk nb = {.p = p, .size = newsize, .id = b.id};
+                    struct blk probe = nb;
+                    probe.size = b.size < newsize ? b.size : newsize;
+                    verify(&probe, probe.size, "after realloc through the tracer of an untracked block (prefix min(old,new))");
+                    fill(&nb);
+                    live[nlive++] = nb;
+                    want_bytes += newsize;
+                    mon_flag(F_FOREIGN_REALLOC);
+                }
+            }
         } else if (pick < acq_w + 24 && level != AWS_MEMTRACE_NONE) {
             opname = "dump";
             mon_fp(4);
@@ -247,6 +304,11 @@ static void seq_case(void) {
                 }
             }
         }
+    }
+    while (nforeign) {
+        struct blk b = foreign[--nforeign];
+        verify(&b, b.size, "foreign block at the end");
+        aws_mem_release(wrapped, b.p);
     }
     struct aws_allocator *back = aws_mem_tracer_destroy(tr);
     MON_CHECK(back == wrapped, "C17:destroy-return", "aws_mem_tracer_destroy did not return the wrapped allocator");
@@ -629,7 +691,8 @@ int main(int argc, char **argv) {
     aws_logger_set(&s_cap_logger);
     static const char *names[] = {"level_none", "level_bytes", "level_stacks", "realloc_moved", "realloc_same_pointer", "realloc_to_zero", "realloc_from_null", "calloc",
                                   "dump_with_live_allocations", "block_released_by_another_thread", "reading_with_activity_in_flight", "wrapped_allocator_has_realloc",
-                                  "wrapped_allocator_without_realloc", "wrapped_allocator_reuses_addresses_immediately"};
+                                  "wrapped_allocator_without_realloc", "wrapped_allocator_reuses_addresses_immediately",
+                                  "untracked_block_released_through_tracer", "untracked_block_resized_through_tracer"};
     for (int i = 0; i < (int)(sizeof(names) / sizeof(names[0])); ++i) {
         mon_flag_name(i, names[i]);
     }
